@@ -235,6 +235,10 @@ def export_machine(machine: MachineNode, ctl: Ctl, *, events: Optional[List[str]
     entry_ev = {n.id: f"entry.{n.id}" for n in nodes}
     for v in list(done_ev.values()) + list(entry_ev.values()):
         types.add(v)
+    for n in nodes:
+        for i in n.invoke:
+            types.add(f"done.invoke.{i.id}")
+            types.add(f"error.platform.{i.id}")
     for t in trans:
         for a in t["acts"]:
             if a["kind"] == "raise":
@@ -291,6 +295,10 @@ def export_machine(machine: MachineNode, ctl: Ctl, *, events: Optional[List[str]
         actInfo=_act_info(nodes, trans, act_info),
         ctx0=ctx0,
         delayMs=_delays(machine, nodes, scratch),
+        invokes={n.id: [Rec(id=i.id, src=i.src or "", hasOnError=bool(i.on_error)) for i in n.invoke] for n in nodes},
+        serviceImpl=set(machine.logic.services),
+        doneInvokeEv={i.id: f"done.invoke.{i.id}" for n in nodes for i in n.invoke},
+        errorInvokeEv={i.id: f"error.platform.{i.id}" for n in nodes for i in n.invoke},
         maxIter=int(getattr(machine, "max_iterations", 1000)),
         fuel=fuel_of(machine),
     )
